@@ -27,7 +27,7 @@ EXPLANATION = (
 NOT_DECIDED = ["that unit k holds the text of page k", "heading-section units of docx/doc/odt (text partition is value level)", "mbox message boundaries (regex semantics)",
                "legacy PPT slide lists: text-less slides are dropped when any slide has text (open known finding)"]
 TRUSTED = ["pypdf reader.pages, openpyxl sheetnames, xlrd sheets(), ElementTree findall enumerate the source units in order", "CFG path enumeration"]
-FLOORS = {"C03-FILT": 2, "C03-JOIN": 11, "C03-NUM": 25, "C03-FILL": 8, "C03-SEP": 36, "C03-COVER": 6}
+FLOORS = {"C03-FILT": 2, "C03-JOIN": 11, "C03-NUM": 25, "C03-FILL": 8, "C03-SEP": 36, "C03-COVER": 6, "C03-KIND": 1}
 
 JOIN_CLASSES = ["PdfContent", "PptxContent", "OdpContent", "XlsxContent", "OdsContent", "EpubContent", "HtmlContent", "PlainTextContent", "EmailContent", "OdgContent", "OdfContent"]
 # content class -> (collection, how the number is obtained in iterate_units: 'enumerate' | '<field on element>')
@@ -482,4 +482,63 @@ def rule_sep(ctx: Ctx) -> RuleReport:
     return rep
 
 
-RULES = [rule_join, rule_num, rule_fill, rule_filt, rule_cover, rule_sep]
+# ----------------------------------------------------------------------------------------------- KIND
+XLSX = X + "ms_modern/xlsx_extractor.py"
+# openpyxl: Workbook[name] is a Worksheet (ReadOnlyWorksheet in read-only mode) or a Chartsheet ("Move chart > New sheet"); these exist on worksheets only
+WORKSHEET_ONLY = {"iter_rows", "iter_cols", "rows", "columns", "values", "cell", "max_row", "max_column", "min_row", "min_column", "dimensions", "calculate_dimension", "reset_dimensions",
+                  "merged_cells", "_images", "_charts", "_cells", "row_dimensions", "column_dimensions", "tables", "data_validations", "conditional_formatting"}
+
+
+def _ws_only_uses(ctx, fi, var: str, depth=0):
+    """(node, attribute) for every worksheet-only attribute read on `var` in fi or, one level down, in module functions var is passed to."""
+    out = []
+    for n in ast.walk(fi.node):
+        if isinstance(n, ast.Attribute) and isinstance(n.value, ast.Name) and n.value.id == var and n.attr in WORKSHEET_ONLY:
+            out.append((n, n.attr, n))
+    if depth < 2:
+        for c in calls_in(fi):
+            for k, a in enumerate(c.args):
+                if isinstance(a, ast.Name) and a.id == var:
+                    for g in resolve_call(ctx.p, fi, c).funcs:
+                        ps = [x.arg for x in g.node.args.args]
+                        if k < len(ps):
+                            for (_n, attr, _site) in _ws_only_uses(ctx, g, ps[k], depth + 1):
+                                out.append((c, attr, c))
+    return out
+
+
+def rule_kind(ctx: Ctx) -> RuleReport:
+    rep = RuleReport("C03-KIND", "a sheet looked up by name in an openpyxl workbook may be a chart sheet: worksheet-only attributes are used only under a test of the sheet's kind, "
+                     "so one chart sheet does not make every sheet of the workbook unreadable")
+    m = ctx.p.module(XLSX)
+    n_sites = 0
+    for fi in m.functions.values():
+        for st in walk_own(fi.node):
+            if not (isinstance(st, ast.Assign) and len(st.targets) == 1 and isinstance(st.targets[0], ast.Name) and isinstance(st.value, ast.Subscript) and isinstance(st.value.value, ast.Name)):
+                continue
+            wbv = st.value.value.id
+            # the subscripted object is a workbook: assigned from load_workbook(...) somewhere in the module or a parameter that callers fill with one
+            is_wb = wbv in ("wb", "workbook") or any(isinstance(a, ast.Assign) and isinstance(a.value, ast.Call) and (dotted(a.value.func) or "").endswith("load_workbook") and any(isinstance(t, ast.Name) and t.id == wbv for t in a.targets) for a in ast.walk(fi.node))
+            if not is_wb:
+                continue
+            var = st.targets[0].id
+            n_sites += 1
+            rep.unit(fi.key)
+            uses = _ws_only_uses(ctx, fi, var)
+            if not uses:
+                rep.ok({"sheet_lookup": f"{fi.qual}: {norm(st)}", "worksheet_only_uses": 0})
+                continue
+            for node, attr, site in uses:
+                conds, opaque, _ = path_conditions(fi.node, site, terminals=("continue", "return", "break", "raise"))
+                cs = {str(c) for c in conds} | set(opaque)
+                guarded = any((f"hasattr({var}" in c and not c.startswith("not ")) or (f"isinstance({var}" in c and "Chartsheet" not in c and not c.startswith("not ")) or (c.startswith("not ") and f"isinstance({var}" in c and "Chartsheet" in c) for c in cs)
+                if guarded:
+                    rep.ok({"sheet_lookup": f"{fi.qual}: {norm(st)}", "use": f"{short(site, 40)} -> .{attr}", "under": sorted(cs)})
+                else:
+                    rep.fail(Finding("C03-KIND", XLSX, fi.qual, f"{anorm(st.value, fi.node)} used as worksheet: .{attr}", f"`{norm(st)}` can be a chart sheet (Excel: Move Chart > New sheet), which has no `{attr}`; `{short(site, 50)}` raises AttributeError, the extractor turns it into ExtractionFailedError and no sheet of the workbook is returned", line=site.lineno))
+    if n_sites == 0:
+        raise AnalysisError("C03-KIND: no sheet lookup `wb[name]` found in the XLSX reader")
+    return rep
+
+
+RULES = [rule_join, rule_num, rule_fill, rule_filt, rule_cover, rule_sep, rule_kind]
